@@ -67,12 +67,16 @@ func (s scope) describe() map[string]any {
 var allInvariants = []string{"TypeOK", "PartialOK", "FinishedOK", "Emit"}
 
 // exhaustive small scopes
-func tinyScope() scope {
+func tinyScope() scope { // every placement of two nodes / two atoms over the tiny pools
 	return scope{2, 1, 2, 1, 2, 2, 2, "TinyAtoms", "CoreJoins", "TinyLeaves", "{0}", "TinyQuotes", "TinyLists", "TinyAtx",
 		"{TRUE}", "FlatWheel", "FlatAtomWheel", allInvariants}
 }
-func coreScope() scope {
-	return scope{2, 1, 2, 2, 2, 3, 2, "CoreAtoms", "CoreJoins", "CoreLeaves", "{0, 2}", "CoreQuotes", "CoreLists", "CoreAtx",
+func coreFlatScope() scope { // the same shape over the larger core pools, with indentation
+	return scope{2, 1, 2, 1, 2, 2, 2, "CoreAtoms", "CoreJoins", "CoreLeaves", "{0, 2}", "CoreQuotes", "CoreLists", "CoreAtx",
+		"{TRUE}", "FlatWheel", "FlatAtomWheel", allInvariants}
+}
+func tinyDeepScope() scope { // three nodes, nesting depth two, over the tiny pools
+	return scope{2, 1, 2, 2, 2, 3, 2, "TinyAtoms", "CoreJoins", "TinyLeaves", "{0}", "TinyQuotes", "TinyLists", "TinyAtx",
 		"{TRUE}", "FlatWheel", "FlatAtomWheel", allInvariants}
 }
 
@@ -248,41 +252,38 @@ func (p *pipeline) judge(cases []caseRec, owners []input, keyOf func(in input, r
 		if d := os.Getenv("C36_DUMP_CASES"); d != "" {
 			os.WriteFile(fmt.Sprintf("%s/cases-%d.ndjson", d, lo), lib.NDJSON(cases[lo:hi]), 0o644)
 		}
-		bad, err := lib.Judge(c, "JudgeMdDoc", p.dir, "JudgeMdDoc", cases[lo:hi], par, 12*time.Minute)
+		bad, err := lib.Judge(c, "JudgeMdDoc", p.dir, "JudgeMdDoc", cases[lo:hi], par, 25*time.Minute)
 		if err != nil {
 			return err
 		}
 		c.AddTraces(hi - lo)
+		// one BadCase per violated relation: Info = [relation, width]
+		seenRel := map[string]bool{}
 		for _, b := range bad {
 			in := owners[lo+b.Index]
 			rec := cases[lo+b.Index]
-			fails, _ := b.Info[0].([]any)
-			if len(fails) == 0 {
-				return lib.Infra("judge rejected case %d without a reason: %v", lo+b.Index, b.Info)
+			if len(b.Info) != 2 {
+				return lib.Infra("judge: malformed report for case %d: %v", lo+b.Index, b.Info)
 			}
-			seenRel := map[string]bool{}
-			var rels []string
-			for _, f := range fails {
-				t, _ := f.([]any)
-				if len(t) != 2 {
-					return lib.Infra("judge: malformed reason %v", f)
-				}
-				rel, _ := t[0].(string)
-				w, _ := t[1].(int64)
-				if seenRel[rel] {
-					continue
-				}
-				seenRel[rel] = true
-				rels = append(rels, rel)
-				if in.Src == "vacuity" {
-					continue
-				}
-				p.inc("rejected_"+rel, 1)
-				c.Reject(keyOf(in, rel, int(w)), describe(in, rec, rel, int(w)), in)
+			rel, ok1 := b.Info[0].(string)
+			w, ok2 := b.Info[1].(int64)
+			if !ok1 || !ok2 {
+				return lib.Infra("judge: malformed report for case %d: %v", lo+b.Index, b.Info)
 			}
+			k := fmt.Sprintf("%d/%s", lo+b.Index, rel)
+			if seenRel[k] {
+				continue // same relation at another width
+			}
+			seenRel[k] = true
 			if in.Src == "vacuity" {
-				vacGot[lo+b.Index] = strings.Join(rels, ",")
+				if vacGot[lo+b.Index] != "" {
+					vacGot[lo+b.Index] += ","
+				}
+				vacGot[lo+b.Index] += rel
+				continue
 			}
+			p.inc("rejected_"+rel, 1)
+			c.Reject(keyOf(in, rel, int(w)), describe(in, rec, rel, int(w)), in)
 		}
 	}
 	nv := 0
@@ -333,50 +334,66 @@ func run(c *lib.Ctx) error {
 	}
 	c.Set("rule", "a case is one Markdown input with its recorded outputs (Html, Fmt, Html∘Fmt, Fmt∘Fmt, and per width FmtReflow, Html∘FmtReflow, Fmt∘FmtReflow, line widths); distinct by input text; non-trivial = the formatter's output differs from the input at width 0 or at some reflow width")
 
-	// ---- M + G: exhaustive small scope (breadth-first) and random larger scope (-simulate), concurrently
-	exh := tinyScope()
+	// ---- M + G: exhaustive small scopes (breadth-first) and random larger scope (-simulate), concurrently
+	type named struct {
+		name string
+		sc   scope
+	}
+	exhs := []named{{"tiny", tinyScope()}}
 	if c.Thorough() {
-		exh = coreScope()
+		exhs = append(exhs, named{"core-flat", coreFlatScope()}, named{"tiny-deep", tinyDeepScope()})
 	}
 	sim := simScope()
+	if c.Thorough() {
+		sim.MaxDepth, sim.MaxNodes, sim.MaxAtoms = 3, 7, 10
+	}
 	nSim := c.Pick(2, 6)
 	perSim := c.Pick(220, 3500)
-	c.Set("bounds", map[string]any{"exhaustive": exh.describe(), "random": sim.describe(),
-		"random_runs": nSim, "random_traces_per_run": perSim, "reflow_widths": reflowWidths})
+	bounds := map[string]any{"random": sim.describe(), "random_runs": nSim, "random_traces_per_run": perSim, "reflow_widths": reflowWidths}
+	for _, e := range exhs {
+		bounds["exhaustive "+e.name] = e.sc.describe()
+	}
+	c.Set("bounds", bounds)
 
-	var exhDocs []genDoc
+	guard := 25 * time.Minute // only a guard against a hung TLC; sizes are set by the bounds
+	exhDocs := make([][]genDoc, len(exhs))
 	simDocs := make([][]genDoc, nSim)
-	errs := make([]error, nSim+1)
+	errs := make([]error, nSim+len(exhs))
+	exhCount := map[string]any{}
+	var emu sync.Mutex
 	var wg sync.WaitGroup
-	wg.Add(1)
-	go func() {
-		defer wg.Done()
-		r, err := c.TLC("MCMdDoc exhaustive", lib.TLCRun{Dir: p.dir, Module: "MCMdDoc", Cfg: "gen.cfg", Workers: c.Pick(4, 6),
-			Timeout: time.Duration(c.Pick(4, 25)) * time.Minute, HeapGB: 6, Files: map[string][]byte{"gen.cfg": exh.cfg()}})
-		if err != nil {
-			errs[nSim] = err
-			return
-		}
-		if r.ErrKind != "" {
-			errs[nSim] = lib.Infra("the generator model violates %s %s:\n%s", r.ErrKind, r.ErrName, r.ErrTrace)
-			return
-		}
-		docs, raw, err := parseDocs(r)
-		if err != nil {
-			errs[nSim] = err
-			return
-		}
-		exhDocs = docs
-		c.Set("exhaustive_documents", raw)
-		c.Set("exhaustive_states", r.Distinct)
-	}()
+	for i, e := range exhs {
+		wg.Add(1)
+		go func(i int, e named) {
+			defer wg.Done()
+			r, err := c.TLC("MCMdDoc exhaustive "+e.name, lib.TLCRun{Dir: p.dir, Module: "MCMdDoc", Cfg: "gen.cfg", Workers: c.Pick(4, 3),
+				Timeout: guard, HeapGB: 6, Files: map[string][]byte{"gen.cfg": e.sc.cfg()}})
+			if err != nil {
+				errs[nSim+i] = err
+				return
+			}
+			if r.ErrKind != "" {
+				errs[nSim+i] = lib.Infra("the generator model (%s) violates %s %s:\n%s", e.name, r.ErrKind, r.ErrName, r.ErrTrace)
+				return
+			}
+			docs, raw, err := parseDocs(r)
+			if err != nil {
+				errs[nSim+i] = err
+				return
+			}
+			exhDocs[i] = docs
+			emu.Lock()
+			exhCount[e.name] = map[string]any{"documents": raw, "states": r.Distinct}
+			emu.Unlock()
+		}(i, e)
+	}
 	for i := 0; i < nSim; i++ {
 		wg.Add(1)
 		go func(i int) {
 			defer wg.Done()
 			r, err := c.TLC("MCMdDoc random", lib.TLCRun{Dir: p.dir, Module: "MCMdDoc", Cfg: "gen.cfg", Workers: 1,
-				Simulate: fmt.Sprintf("num=%d", perSim), Depth: 120, Seed: c.Seed*1000 + int64(i) + 1,
-				Timeout: time.Duration(c.Pick(4, 25)) * time.Minute, HeapGB: 3, Files: map[string][]byte{"gen.cfg": sim.cfg()}})
+				Simulate: fmt.Sprintf("num=%d", perSim), Depth: 150, Seed: c.Seed*1000 + int64(i) + 1,
+				Timeout: guard, HeapGB: 3, Files: map[string][]byte{"gen.cfg": sim.cfg()}})
 			if err != nil {
 				errs[i] = err
 				return
@@ -400,6 +417,7 @@ func run(c *lib.Ctx) error {
 		}
 	}
 	c.Set("exhaustive", true)
+	c.Set("exhaustive_scopes", exhCount)
 
 	var ins []input
 	seen := map[string]bool{}
@@ -411,8 +429,10 @@ func run(c *lib.Ctx) error {
 		seen[t] = true
 		ins = append(ins, input{Src: src, Name: src + ":" + hash8(t), Text: t, Widths: reflowWidths, Skel: d.Skel, Sig: d.Sig})
 	}
-	for _, d := range exhDocs {
-		add("gen-exhaustive", d)
+	for _, ds := range exhDocs {
+		for _, d := range ds {
+			add("gen-exhaustive", d)
+		}
 	}
 	nExh := len(ins)
 	for _, ds := range simDocs {
@@ -504,7 +524,7 @@ func vacuityCases() ([]caseRec, []input) {
 		f(&r)
 		return r
 	}
-	want := []string{"", "html", "idem", "reflow-fixpoint", "reflow-html", "fits-width"}
+	want := []string{"", "html", "idem", "reflow-fixpoint", "reflow-html", "fits-width", "html,idem,reflow-html,reflow-fixpoint,fits-width"}
 	cs := []caseRec{
 		base,
 		mk(func(r *caseRec) { r.Hf += " " }),
@@ -519,6 +539,18 @@ func vacuityCases() ([]caseRec, []input) {
 			l := &r.Rf[1].Lines[0]
 			l.W = 21
 			l.B = toBytes("a *b* c d e f g h i j")
+		}),
+		mk(func(r *caseRec) { // everything at once, at every width: the report must survive its length
+			r.Hf += " "
+			r.Ff += "x"
+			r.H0b = toBytes(r.H0)
+			for i := range r.Rf {
+				r.Rf[i].F0r += "x"
+				r.Rf[i].Hr += "y"
+				r.Rf[i].Hrb = toBytes(strings.Replace(r.Rf[i].Hr, "<em>", "<em> ", 1))
+				l := &r.Rf[i].Lines[0]
+				l.Para, l.W, l.B = true, 100, toBytes("a *b* c d e f g h i j")
+			}
 		}),
 	}
 	var owners []input
